@@ -31,7 +31,8 @@ func init() {
 		Rule: "per run the tape draws a mount tree of 1-4 sub-apps below the root (prefixes from /api /api-v2 /api/v1 /apix /a /v1 /web, nested mounts, mounts from groups /g or /api, " +
 			"top-down / bottom-up / shuffled mount order, each app with or without its own ErrorHandler, optional pass-through middleware before and around the routes), " +
 			"1-12 requests (paths inside, beside, between and one or two bytes short of the prefixes; GET or POST; error raised by a route, a root / group / sub-app middleware, after the chain returned, or by the router: 404 / 405; " +
-			"error value *fiber.Error with a code, package-level fiber error, plain error; handler that fails) each sent 1-2 times to each of 2-4 fresh builds of the tree, all under tape-permuted map iteration orders; " +
+			"error value *fiber.Error with a code, package-level fiber error, plain error; handler that fails returning a plain error, a *fiber.Error of a 4xx / 5xx code or a wrapped one; " +
+			"25% of the targets carry a query string (also right after a mount prefix), 12% use the absolute form of the request line, 35% of the requests after the first have exactly the byte length of their predecessor's path but lie in another error scope (same connection, same pooled context)) each sent 1-2 times to each of 2-4 fresh builds of the tree, all under tape-permuted map iteration orders; " +
 			"30% of the runs draw from a prefix alphabet without string-prefix siblings and without handler-less mounts nested below a configured one; " +
 			"distinct = hash of (tree, per request (path, method, site, error kind, handlers that ran per build)); " +
 			"non-trivial = some request path had at least two mount prefixes as string prefixes, or was owed to a sub-application's handler",
@@ -67,7 +68,39 @@ type esOp struct {
 	site    string // "" = nobody but the routes / the router raises
 	errKind int
 	code    int
-	ehFail  int // 0 handler succeeds, 1 fails without writing, 2 fails after writing
+	ehFail  int    // 0 handler succeeds, 1 fails without writing, 2 fails after writing
+	ehErr   int    // what a failing handler returns: see esHandlerFailure
+	query   string // "" or "?..." appended to the request target
+	absForm bool   // request line in absolute form (GET http://host/path HTTP/1.1)
+	twin    bool   // same byte length as the previous path, other error scope
+}
+
+// target is what goes into the request line; the reference function only
+// ever sees op.path.
+func (op *esOp) target() string {
+	t := op.path + op.query
+	if op.absForm {
+		t = "http://example.com" + t
+	}
+	return t
+}
+
+// esHandlerFailure is the error a failing error handler returns.
+func esHandlerFailure(kind int) (error, string) {
+	switch kind {
+	case 1:
+		return fiber.NewError(fiber.StatusTeapot, "handler failed with a 418 fiber error"), "fiber.NewError(418)"
+	case 2:
+		return fiber.NewError(fiber.StatusNotFound, "handler failed: file not found"), "fiber.NewError(404)"
+	case 3:
+		return fiber.ErrServiceUnavailable, "fiber.ErrServiceUnavailable(503)"
+	case 4:
+		return fmt.Errorf("render failed: %w", fiber.NewError(fiber.StatusPaymentRequired)), "wrapped fiber.NewError(402)"
+	case 5:
+		return fiber.NewError(fiber.StatusBadGateway), "fiber.NewError(502)"
+	default:
+		return errors.New("error handler failed"), "errors.New(plain)"
+	}
 }
 
 type esCall struct {
@@ -255,6 +288,42 @@ func errselMain(s *simrt.Sim, info *harness.RunInfo) {
 		if op.path == "" {
 			op.path = "/"
 		}
+		// a pooled context serves consecutive requests of one connection: follow a
+		// request with one of exactly the same byte length in another error scope
+		if len(ops) > 0 && s.Chance(350) {
+			prev := ops[len(ops)-1].path
+			prevScope := esChosen(prev, tree)
+			start := s.Draw(len(tree))
+			for k := 0; k < len(tree); k++ {
+				j := (start + k) % len(tree)
+				fill := len(prev) - len(tree[j].full) - 1
+				if fill < 1 {
+					continue
+				}
+				cand := tree[j].full + "/" + strings.Repeat("z", fill)
+				if fill == 1 {
+					cand = tree[j].full + "/x"
+				} else if fill == 2 && s.Chance(500) {
+					cand = tree[j].full + "/ok"
+				}
+				if esChosen(cand, tree) != prevScope {
+					op.path, op.twin = cand, true
+					break
+				}
+			}
+		}
+		qpm := 250
+		for _, a := range tree[1:] {
+			if a.full == op.path {
+				qpm = 500 // the target ends exactly at a mount prefix
+			}
+		}
+		if s.Chance(qpm) {
+			op.query = simrt.PickS(s, "?debug=1", "?x=y", "?", "?next=/api/v1/x", "?a=1&b=/web", "?/x")
+		}
+		if s.Chance(120) {
+			op.absForm = true
+		}
 		if s.Chance(200) {
 			op.method = "POST"
 		}
@@ -264,8 +333,9 @@ func errselMain(s *simrt.Sim, info *harness.RunInfo) {
 		if op.errKind == 3 {
 			op.code = simrt.PickS(s, 400, 401, 403, 404, 405, 502)
 		}
-		if s.Chance(150) {
+		if s.Chance(200) {
 			op.ehFail = 1 + s.Draw(2)
+			op.ehErr = s.Draw(6)
 		}
 		ops = append(ops, op)
 	}
@@ -304,12 +374,13 @@ func errselMain(s *simrt.Sim, info *harness.RunInfo) {
 		return func(c fiber.Ctx, err error) error {
 			rq := cur(c)
 			rq.calls = append(rq.calls, esCall{app: i, err: err, path: strings.Clone(c.Path())})
+			herr, _ := esHandlerFailure(rq.op.ehErr)
 			switch rq.op.ehFail {
 			case 1:
-				return errors.New("error handler failed")
+				return herr
 			case 2:
 				_ = c.Status(418).SendString("partial")
-				return errors.New("error handler failed after writing")
+				return herr
 			}
 			return c.Status(460 + i).SendString("EH" + strconv.Itoa(i))
 		}
@@ -399,11 +470,24 @@ func errselMain(s *simrt.Sim, info *harness.RunInfo) {
 		if nstr >= 2 {
 			s.Count("probe_path_with_several_prefix_candidates")
 		}
-		what := fmt.Sprintf("op%d %s %s (site %q, %s, handler-fails=%d) on tree [%s]", op.id, op.method, op.path, op.site, esErrName(op.errKind, op.code), op.ehFail, treeLine)
+		_, herrName := esHandlerFailure(op.ehErr)
+		if op.ehFail == 0 {
+			herrName = "-"
+		}
+		what := fmt.Sprintf("op%d %s %s [path %s] (site %q, %s, handler-fails=%d returning %s) on tree [%s]", op.id, op.method, op.target(), op.path, op.site, esErrName(op.errKind, op.code), op.ehFail, herrName, treeLine)
+		if op.twin {
+			s.Count("probe_equal_length_path_in_other_scope_follows")
+		}
+		if op.query != "" && registered[op.path] == false && esChosen(op.path, tree) != 0 && tree[esChosen(op.path, tree)].full == op.path {
+			s.Count("probe_query_right_after_mount_prefix")
+		}
+		if op.absForm {
+			s.Count("probe_absolute_form_request_line")
+		}
 		outcomes := map[string]string{} // who ran -> first request that showed it
 		var outcomeOrder []string
 		offBoundary := false
-		h.str(op.path).str(op.method).str(op.site).int(op.errKind).int(op.code).int(op.ehFail)
+		h.str(op.target()).str(op.method).str(op.site).int(op.ehErr).int(op.errKind).int(op.code).int(op.ehFail)
 		for b := 0; b < nbuilds; b++ {
 			reps := 1 + s.Draw(2)
 			for r := 0; r < reps; r++ {
@@ -426,7 +510,7 @@ func errselMain(s *simrt.Sim, info *harness.RunInfo) {
 							fail("C08.panic", "%s build%d/rep%d: the request panicked: %v", what, b, r, p)
 						}
 					}()
-					resp = conns[b].Do(harness.Req{Method: op.method, Path: op.path, Headers: [][2]string{{"X-Op", strconv.Itoa(len(reqs) - 1)}}}.Bytes())
+					resp = conns[b].Do(harness.Req{Method: op.method, Path: op.target(), Headers: [][2]string{{"X-Op", strconv.Itoa(len(reqs) - 1)}}}.Bytes())
 				}()
 				if resp == nil {
 					return // the connection's context is in an unknown state after a panic
@@ -442,7 +526,7 @@ func errselMain(s *simrt.Sim, info *harness.RunInfo) {
 				}
 				tag := fmt.Sprintf("build%d/rep%d", b, r)
 				s.Logf("op%d %s %s %s site=%q err=%s: visited=%v raised=%v ok-route=%v -> status=%d body=%q ran=[%s] owed=EH%d(configured=%v)",
-					op.id, tag, op.method, op.path, op.site, esErrName(op.errKind, op.code), rq.visited, rq.raised, rq.okRan, rq.status, rq.body, sig, want, tree[want].hasEH)
+					op.id, tag, op.method, op.target(), op.site, esErrName(op.errKind, op.code), rq.visited, rq.raised, rq.okRan, rq.status, rq.body, sig, want, tree[want].hasEH)
 				if resp.ReadErr != nil {
 					fail("C08.harness", "%s %s: request could not be served: %v", what, tag, resp.ReadErr)
 					continue
@@ -535,7 +619,7 @@ func errselMain(s *simrt.Sim, info *harness.RunInfo) {
 						}
 					}
 					if op.ehFail != 0 && rq.status != 500 {
-						fail("C08.failing-handler-500", "%s %s: EH%d returned an error itself (mode %d), the response status is %d, not 500", what, tag, rq.calls[0].app, op.ehFail, rq.status)
+						fail("C08.failing-handler-500", "%s %s: EH%d returned %s itself (mode %d), the response status is %d, not 500", what, tag, rq.calls[0].app, herrName, op.ehFail, rq.status)
 					}
 				} else {
 					// the default handler of the root app: status of the error value
